@@ -228,6 +228,23 @@ def c15_5(ctx):
                      witness="tree_to_table({'w': None}, 'w/%weight') must give [{'weight': None}]")
         else:
             raise AnalysisError('literal-segment lookup of tree_to_table not recognised')
+    # a None leaf is a value like any other: table_to_tree stores it, so tree_to_table must hand it back; no test of the node against
+    # None / emptiness may end in "no rows"
+    ctx.count(1)
+    def _absence_test(t_):
+        if isinstance(t_, ast.BoolOp):
+            return any(_absence_test(v) for v in t_.values)
+        if isinstance(t_, ast.UnaryOp) and isinstance(t_.op, ast.Not):
+            return isinstance(t_.operand, ast.Name) and t_.operand.id in (tree, 't')
+        if isinstance(t_, ast.Compare) and len(t_.ops) == 1 and isinstance(t_.ops[0], (ast.Is, ast.Eq)):
+            return isinstance(t_.left, ast.Name) and t_.left.id in (tree, 't') and isinstance(t_.comparators[0], ast.Constant) and t_.comparators[0].value is None
+        if isinstance(t_, ast.Call) and call_name(t_) in ('is_none', 'is_zero_len') and t_.args:
+            return isinstance(t_.args[0], ast.Name) and t_.args[0].id in (tree, 't')
+        return False
+    for n in ast.walk(f1.node):
+        if isinstance(n, ast.If) and _absence_test(n.test) and any(isinstance(x, ast.Return) and x.value is not None and N(x.value) == '[]' for x in n.body):
+            ctx.fail(f1, n, 'tree_to_table answers "no rows" when the node is None/empty (`if %s`): a row whose wildcard leaf is None is stored by table_to_tree but no longer read back' % U(n.test)[:80],
+                     witness="tree_to_table({'a': None}, '%k/%v') must give [{'k': 'a', 'v': None}]")
     # wildcard segment: one row set per key of the dict, key recorded under the stripped name
     ctx.count(1)
     wc = [c for c in ast.walk(f1.node) if isinstance(c, ast.ListComp) and any(isinstance(x, ast.Call) and call_name(x) == '_update' for x in ast.walk(c))]
